@@ -367,6 +367,17 @@ pub enum Op {
         out: u32,
         text: String,
     },
+    /// an authentic token issued by the *other* feature-set binary (outbox exchange, DESIGN §4):
+    /// its provenance is known to the model although this binary cannot issue it
+    Imported {
+        out: u32,
+        text: String,
+        proto: Proto,
+        key: usize,
+        payload: String,
+        footer: Option<String>,
+        assertion: Option<String>,
+    },
     NewVerifier {
         v: u32,
         spec: VerifierSpec,
